@@ -14,15 +14,15 @@ def jobs(ctx, fields):
         if quick:
             rows, cols, nrnd, nsh = [1, 2, 3, 4], [1, 2, 3, 4], 3, 1
         elif f in ("fiatp", "fiatn", "natn", "natn9"):
-            rows, cols, nrnd, nsh = [1, 2, 3, 4, 5, 6, 7, 8], [1, 2, 3, 4], 8, 3
+            rows, cols, nrnd, nsh = [1, 2, 3, 4, 5, 6, 7, 8], [1, 2, 3, 4], 8, 6
         elif f == "gfp2":
             rows, cols, nrnd, nsh = [1, 2, 3, 4], [1, 2, 3, 4], 8, 1
         else:
-            rows, cols, nrnd, nsh = [1, 2, 3, 4, 5, 6, 7, 8, 9], [1, 2, 3, 4], 8, 6
+            rows, cols, nrnd, nsh = [1, 2, 3, 4, 5, 6, 7, 8, 9], [1, 2, 3, 4], 8, 12
         for k in range(nsh):
             o = os.path.join(ctx.scratch, "fel-%s-%d.ndjson" % (f, k))
             outs.append(o)
-            js.append(dict(module="MC_Fel", name="MC_Fel_%s_%d" % (f, k), view="View", workers=2 if quick else 3, timeout=3000, heap="3g",
+            js.append(dict(module="MC_Fel", name="MC_Fel_%s_%d" % (f, k), view="View", workers=2 if quick else 3, timeout=3000, heap="4g",
                            constants=dict(Seed=ctx.seed, OutFile=core.tla_str(o), Field='"%s"' % f, RowLetters=S(rows), ColLetters=S(cols), NRnd=nrnd, NShards=nsh, Shard=k),
                            invariants=("DomainOk", "InverseOk", "RootOk", "Inverse2Ok")))
     return js, outs
